@@ -75,9 +75,13 @@ func (i *Ignore) IsIncluded(path string, index *Index) bool {
 			target = fmt.Sprintf("%s/", path)
 		}
 	}
-	for _, exFile := range i.paths {
+	for n, exFile := range i.paths {
 		// a pattern has to match whole path components up to the end of the path, not any part of it
 		exRegexp := regexp.MustCompile(fmt.Sprintf("(?:^|/)(?:%s)$", exFile))
+		if n == 0 {
+			// the first pattern is goit's own directory, which only exists at the root of the working tree
+			exRegexp = regexp.MustCompile(fmt.Sprintf("^(?:\\./)?(?:%s)$", exFile))
+		}
 		if exRegexp.MatchString(target) {
 			return true
 		}
